@@ -143,6 +143,17 @@ where
         // for the invalidated value.
         let mut cache_opt = self.cache.write().await;
 
+        // Another task may have stored a valid value while we were waiting for the write lock.
+        if matches!(&*cache_opt, Some(cache) if cache.is_valid()) {
+            return Ok(tokio::sync::RwLockReadGuard::map(tokio::sync::RwLockWriteGuard::downgrade(cache_opt), |co| {
+                co.as_ref().unwrap()
+            }));
+        }
+
+        // Release the invalidated value. Otherwise the owner, which waits for all copies of the
+        // invalidated value to be dropped before granting a write lock, would never answer our request.
+        *cache_opt = None;
+
         // Request and receive current value.
         let (value_tx, value_rx) = oneshot::channel();
         let _ = self.req_tx.send(ReadRequest { value_tx }).await;
